@@ -690,6 +690,126 @@ def f_select_minmax(c):
     return None
 
 
+
+# --------------------------------------------------------------------------------------------
+# C08 / C09  loads, stores, gathers, scatters, array round trips, lane access
+#   The harness owns the memory: an object of EXACTLY min(n, W) elements (malloc'ed, so a zero-sized object for
+#   n == 0); CBMC's pointer checks against that object are the footprint obligations (C09), the ensures clauses
+#   are the value obligations (C08).  `n` is fully symbolic.
+# --------------------------------------------------------------------------------------------
+def elem_of_ptr(ct):
+    if ct.endswith('*') and ct[:-1] in CT2ELEM:
+        return ct[:-1]
+    return None
+
+
+def mem_harness(c, t, ect, n_expr, ptr_index, extra_args):
+    """harness lines: cnt = min(n, W); buf = malloc(cnt * sizeof T) filled from a nondet array"""
+    W = t.W
+    pre = ['%s init[%d];' % (ect, W),
+           'uint32_t n_in = %s;' % n_expr,
+           'uint32_t cnt = n_in < %du ? n_in : %du;' % (W, W),
+           '%s* buf = malloc((size_t)cnt * sizeof(%s));' % (ect, ect),
+           '__CPROVER_assume(buf != 0);',
+           'for (int i = 0; i < %d; i++) if ((uint32_t)i < cnt) buf[i] = init[i];' % W]
+    return pre
+
+
+def bits_of(ect, e):
+    if ect == 'float':
+        return '(uint64_t)avm_f2u(%s)' % e
+    if ect == 'double':
+        return '(uint64_t)avm_d2u(%s)' % e
+    b = ELEM[CT2ELEM[ect]][0]
+    return '(uint64_t)(%s)(%s)' % (UNS[b], e)
+
+
+@family
+def f_memory(c):
+    if c.kind != 'function':
+        return None
+    name = c.name
+    P = c.P
+    # ---------------- load / aligned_load
+    if name in ('load', 'aligned_load') and P and elem_of_ptr(P[0]['ctype']) and c.RT and c.RT.kind == 'vec':
+        t = c.RT
+        ect = elem_of_ptr(P[0]['ctype'])
+        if ect != t.cscalar:
+            return None
+        p = P[0]['name']
+        if len(P) == 2 and P[1]['ctype'] == 'uint32_t':
+            n_expr, nn, cxx = 'nondet_u32()', P[1]['name'], 'avel::%s<%s>({0}, {1})' % (name, t.cxx())
+            args = ['buf', 'n_in']
+        elif len(P) == 1 and c.targs and isinstance(c.targs[-1], int):
+            N = c.targs[-1]
+            n_expr, nn, cxx = '%du' % N, '%du' % N, 'avel::%s<%s, %d>({0})' % (name, t.cxx(), N)
+            args = ['buf']
+        else:
+            return None
+        cnt = '(%s < %du ? %s : %du)' % (nn, t.W, nn, t.W)
+        ens = [('%s lane %d' % (name, i), '%s == ((%du < %s) ? %s : 0)' % (t.lane(RV, i), i, cnt, bits_of(ect, '%s[%d]' % (p, i)))) for i in range(t.W)]
+        k = Contract('mem_' + name + ('_n' if len(P) == 2 else '_N'), ['C08', 'C09'], ensures=ens, assigns=[], cxx=cxx)
+        k.harness = {'pre': mem_harness(c, t, ect, n_expr, 0, []), 'args': args}
+        k.mem = {'kind': 'load', 'elem': ect, 'W': t.W}
+        return k
+    # ---------------- store / aligned_store
+    if name in ('store', 'aligned_store') and len(P) >= 2 and elem_of_ptr(P[0]['ctype']) and c.PT[1].kind == 'vec' and c.fn['ret'] == 'void':
+        t = c.PT[1]
+        ect = elem_of_ptr(P[0]['ctype'])
+        if ect != t.cscalar:
+            return None
+        p, v = P[0]['name'], c.a(1)
+        if len(P) == 3 and P[2]['ctype'] == 'uint32_t':
+            n_expr, nn, cxx = 'nondet_u32()', P[2]['name'], 'avel::%s({0}, {1}, {2})' % name
+            args = ['buf', 'a1', 'n_in']
+        elif len(P) == 2 and c.targs and isinstance(c.targs[0], int):
+            N = c.targs[0]
+            n_expr, nn, cxx = '%du' % N, '%du' % N, 'avel::%s<%d>({0}, {1})' % (name, N)
+            args = ['buf', 'a1']
+        else:
+            return None
+        cnt = '(%s < %du ? %s : %du)' % (nn, t.W, nn, t.W)
+        # assigns targets may not contain ?: -- min(n, W) written arithmetically
+        cnt_noternary = '((size_t)(%s < %du) * (size_t)%s + (size_t)(%s >= %du) * (size_t)%du)' % (nn, t.W, nn, nn, t.W, t.W)
+        ens = [('%s element %d' % (name, i), '!(%du < %s) || %s == %s' % (i, cnt, bits_of(ect, '%s[%d]' % (p, i)), t.lane(v, i))) for i in range(t.W)]
+        k = Contract('mem_' + name + ('_n' if len(P) == 3 else '_N'), ['C08', 'C09'], ensures=ens,
+                     assigns=['__CPROVER_object_upto(%s, %s * sizeof(%s))' % (p, cnt_noternary, ect)], cxx=cxx)
+        k.harness = {'pre': mem_harness(c, t, ect, n_expr, 0, []) + ['%s a1;' % t.ct], 'args': args}
+        k.mem = {'kind': 'store', 'elem': ect, 'W': t.W}
+        return k
+    # ---------------- to_array / array constructor / extract / insert (values only: C08)
+    if name == 'to_array' and len(P) == 1 and c.PT[0].kind == 'vec' and re.match(r'^Arr_', c.fn['ret']):
+        t = c.PT[0]
+        ens = [('to_array element %d' % i, '%s == %s' % (bits_of(t.cscalar, '(%s)._M_elems[%d]' % (RV, i)), t.lane(c.a(0), i))) for i in range(t.W)]
+        return Contract('to_array', ['C08'], ensures=ens, cxx='avel::to_array({0})')
+    if name == 'extract' and len(P) == 1 and c.PT[0].kind == 'vec' and c.targs and isinstance(c.targs[0], int) and c.RT.kind == 'scalar':
+        t = c.PT[0]
+        I = c.targs[0]
+        if I >= t.W:
+            return None
+        return Contract('vec_extract', ['C08'], ensures=[('extract<%d>' % I, '%s == %s' % (bits_of(t.cscalar, RV), t.lane(c.a(0), I)))], cxx='avel::extract<%d>({0})' % I)
+    if name == 'insert' and len(P) == 2 and c.PT[0].kind == 'vec' and c.PT[1].kind == 'scalar' and c.targs and isinstance(c.targs[0], int) and c.RT.ct == c.PT[0].ct:
+        t = c.PT[0]
+        I = c.targs[0]
+        if I >= t.W:
+            return None
+        ens = [('insert<%d> lane %d' % (I, j), '%s == %s' % (t.lane(RV, j), bits_of(t.cscalar, c.a(1)) if j == I else t.lane(c.a(0), j))) for j in range(t.W)]
+        return Contract('vec_insert', ['C08'], ensures=ens, cxx='avel::insert<%d>({0}, {1})' % I)
+    return None
+
+
+@family
+def f_array_ctor(c):
+    if c.kind == 'ctor' and c.OT and c.OT.kind == 'vec' and len(c.P) == 1:
+        ct = c.P[0]['ctype'].rstrip('*')
+        m = re.match(r'^Arr_(\w+)_(\d+)$', ct)
+        if m and m.group(1) == c.OT.elem and int(m.group(2)) == c.OT.W:
+            t = c.OT
+            ens = [('Vector(array) lane %d' % i, '%s == %s' % (t.lane(RV, i), bits_of(t.cscalar, '(%s)._M_elems[%d]' % (c.a(0), i)))) for i in range(t.W)]
+            return Contract('vec_from_array', ['C08'], ensures=ens, cxx='%s({0})' % t.cxx())
+    return None
+
+
 def contract_for(fn, db):
     if fn.get('error'):
         return None
@@ -729,6 +849,8 @@ PROPERTY_NAMES = {
     'C04': set(BITOPS) | set(BITOPS_BIN) | {'operator~', 'operator<<=', 'operator>>=', 'operator<<', 'operator>>', 'bit_shift_left', 'bit_shift_right', 'rotl', 'rotr'},
     'C05': {'div', 'operator/=', 'operator%=', 'operator/', 'operator%'},
     'C06': set(BITFN) | {'has_single_bit'},
+    'C08': {'load', 'aligned_load', 'store', 'aligned_store', 'gather', 'scatter', 'to_array', 'extract', 'insert'},
+    'C09': {'load', 'aligned_load', 'store', 'aligned_store', 'gather', 'scatter'},
     'C07': {'blend', 'keep', 'clear', 'negate', 'min', 'max', 'minmax', 'clamp', 'abs', 'neg_abs', 'average', 'midpoint', 'copysign'},
 }
 
